@@ -36,6 +36,13 @@ T = [
     ("ext.lbl.p", "STY", "{L}", "ins", None),
     ("ext.lbl+1", "JSR", "{L}+1", "ins", None),
     ("imm.lbl", "LDX", "#{L}", "ins", None),
+    ("imm.lbl+1", "LDD", "#{L}+1", "ins", None),
+    ("pcr.lbl+2", "LEAY", "{L}+2,PCR", "ins", None),
+    ("pcr.lbl-1.ind", "LDA", "[{L}-1,PCR]", "ins", None),
+    ("idx.lbl+1", "LDA", "{L}+1,S", "ins", None),
+    ("extind.lbl+1", "JMP", "[{L}+1]", "ins", None),
+    ("bra.lbl+1", "BEQ", "{L}+1", "ins", None),
+    ("dir.lbl", "LDA", "<{L}", "ins", None),
     ("imm.lbl.p", "LDY", "#{L}", "ins", None),
     ("idx.zero", "LDA", ",X", "ins", None),
     ("idx.off5", "LDA", "5,X", "ins", None),
